@@ -128,6 +128,22 @@ def is_btext(s):
     return depth == 0 and no_blockstart(s)
 
 
+def is_ctext(s):
+    """btext whose whitespace-stripped form does not end in an unescaped backslash (the explicit
+    comment is stored stripped; DESIGN C05 'outside the claim')"""
+    if not is_btext(s):
+        return False
+    e = len(s)
+    while e > 0 and s[e - 1] in WS:
+        e -= 1
+    if e == len(s):
+        return True
+    k = 0
+    while e - k > 0 and s[e - k - 1] == "\\":
+        k += 1
+    return k % 2 == 0
+
+
 def is_svalue(s):
     return is_value(s) and is_btext(s)
 
@@ -155,7 +171,7 @@ def is_ws(s):
     return True
 
 
-LEGAL = {"V": is_value, "SV": is_svalue, "B": is_btext, "K": is_key, "F": is_free, "W": is_ws}
+LEGAL = {"V": is_value, "SV": is_svalue, "B": is_btext, "BC": is_ctext, "K": is_key, "F": is_free, "W": is_ws}
 
 
 class Builder:
@@ -232,7 +248,7 @@ class Builder:
 
     def comment(self, bl=2):
         self.lit("@Comment{")
-        b = self.hole("B", bl, V_SIGMA)
+        b = self.hole("BC", bl, V_SIGMA)
         self.lit("}")
         self.expect.append(("ExplicitComment", b))
 
